@@ -190,6 +190,15 @@ fn main() {
                     ctx.add(&format!("ms:{}", l.name), t0.elapsed().as_millis() as u64);
                 }
                 rt::set_live_cap(usize::MAX / 2);
+                // what the hooks saw on this worker: lexer (state x character class) transitions, parser recovery branches
+                const CLASSES: [&str; 10] = ["colon", "LF", "CR", "SP", "TAB", "hash", "dash", "graphic", "ascii-other", "non-ascii"];
+                for ((sol, colon, indent, class), n) in deb822_lossless::verif::take_lex_transitions() {
+                    let key = format!("hook:lex:{}{}{}:{}", if sol { "line-start" } else { "in-line" }, if colon { "+colon-seen" } else { "" }, if indent { "+indented" } else { "" }, CLASSES[class as usize]);
+                    ctx.add(&key, n);
+                }
+                for (name, n) in deb822_lossless::verif::take_branches() {
+                    ctx.add(&format!("hook:branch:{}", name), n);
+                }
                 if !out.is_empty() {
                     let mut b = Vec::with_capacity(ctx.hashes.len() * 8);
                     for h in &ctx.hashes {
